@@ -333,6 +333,21 @@ def evaluate_op(case):
         Client = getattr(mod, client_name)
         mname = find_method(Client, case["op_name"])
         assignments = case.get("kwargs_list") or ([{"v": True}, {"v": False}] if case.get("uses_var") else [{}])
+        if case.get("auto_kwargs"):
+            # required variables get the first value of the type-derived menu, built with the package's own classes
+            from ariadne_codegen.utils import process_name
+            from graphql import type_from_ast
+            from . import inputs as _inputs
+            odef = next(x for x in parse(case["doc_text"]).definitions if x.kind == "operation_definition" and x.name and x.name.value == case["op_name"])
+            argsc = case.get("arg_scalars") or {}
+            kw = {}
+            for v in odef.variable_definitions or ():
+                t = type_from_ast(schema, v.type)
+                if not is_non_null_type(t) or v.default_value is not None:
+                    continue
+                spec = _inputs.menu(t, depth=2, custom={k: [x] for k, x in argsc.items()})[0]
+                kw[process_name(v.variable.name.value, convert_to_snake_case=SNAKE["on"])] = _inputs.build(spec, mod, lambda n, x: x)
+            assignments = [kw]
         first = True
         ann_seen = set()
         for kwargs in assignments:
